@@ -85,6 +85,20 @@ pub fn pack_cases(tier: Tier) -> Vec<PackCase> {
                         }
                     }
                 }
+                // fill sweep: two messages of `a` bytes and a third of every length 1..=1300, with the packet sequence
+                // crossing a varint width boundary between the packets of one flush (a size budget computed once per
+                // flush, or from a neighbouring packet's header, shows as a packet of 1301+ bytes for a few values of b)
+                if id0 == 0 || (tier == Tier::Thorough && id0 == 16_384) {
+                    for &a in tier.pick(&[1000usize][..], &[400usize, 700, 1000][..]) {
+                        for b in 1..=1300usize {
+                            for s in [seq0.saturating_sub(1), seq0] {
+                                if seq0 == 63 || seq0 == 16_383 || seq0 == (1 << 30) - 1 {
+                                    out.push(PackCase { kind, lens: vec![a, a, b], seq0: s, id0 });
+                                }
+                            }
+                        }
+                    }
+                }
                 for lens in [vec![0usize; 40], vec![1usize; 70], vec![62, 63, 64, 65, 1100], vec![76_800], vec![84_000, 1], vec![1201, 1200, 1199, 2401]] {
                     out.push(PackCase { kind, lens, seq0, id0 });
                 }
@@ -141,7 +155,7 @@ pub fn ack_shapes(tier: Tier) -> Vec<(usize, u64, &'static str)> {
     let ns: Vec<usize> = tier.pick(vec![1, 2, 63, 64, 65, 100, 150, 200], vec![1, 2, 3, 32, 63, 64, 65, 66, 100, 144, 145, 150, 156, 160, 200, 400]);
     for &n in &ns {
         for sp in [2u64, 64, 16_384, 1 << 30, 1 << 31, 1 << 55] {
-            for order in ["ascending", "descending", "middle-out"] {
+            for order in ["ascending", "descending", "middle-out", "evens-then-odds", "evens-then-odds-descending"] {
                 if (n as u64 - 1).saturating_mul(sp) >= (1 << 61) {
                     continue;
                 }
